@@ -10,7 +10,7 @@ from common import *
 
 ALGOS = ['no', 'inf', 'lfu', 'lru', 'mru', 'rr']
 MEM_BACKENDS = ['plain', 'null', 'dict', 'bare_dict']
-DISK_BACKENDS = ['file', 'dir', 'sql', 'bare_file', 'bare_dir', 'bare_sql']
+DISK_BACKENDS = ['file', 'dir', 'sql', 'bare_file', 'bare_dir', 'bare_sql', 'sqlmem']
 KEYMAPS = ['raw', 'string', 'pickle', 'md5', 'raw_nonflat', 'string_nonflat', 'raw_typed', 'hash']
 
 
@@ -71,6 +71,8 @@ def make_backend(kind, tmp, name='a', variant=0):
         a = ka.dir_archive(os.path.join(tmp, name + '_d'), cached=False, **o[variant % len(o)])
     elif k == 'sql':
         a = _sqlite(tmp, name)
+    elif k == 'sqlmem':
+        a = ka.sqltable_archive(cached=False)     # the default database ':memory:' - private to this archive object
     else:
         raise ValueError(kind)
     if bare:
@@ -117,6 +119,9 @@ def gen_cfg(r, tier, idx):
                 pre_mem=r.choice([0, 0, 0, 2, maxsize + 2]),
                 pre_arch=r.choice([0, 0, 3, maxsize + 3]),
                 malformed=malformed, clone=False,
+                # a second memoized function of the same configuration (own cache, own archive of the same class built the same way,
+                # other on-disk name) is called with the same arguments in between: the two must not see each other
+                bystander=(blk % 7) in (0, 2, 3, 5),
                 # the archive is attached only after decoration (f.archive(obj)), as test_cache_info does
                 late_attach=(backend in ('plain', 'null') and (blk // 5) % 2 == 0),
                 longargs=(backend in ('dir', 'bare_dir', 'file') and keymap == 'string' and (blk // 5) % 2 == 1))
@@ -192,6 +197,11 @@ def fun(x):
     return value_of(xx)
 
 
+def other(x):
+    """the bystander's function: same arguments, other results"""
+    return ('other', x if not isinstance(x, str) else x[-2:])
+
+
 class Runner:
     def __init__(self, cfg, tmp):
         import klepto, klepto.safe
@@ -217,6 +227,11 @@ class Runner:
         self.f = self.dec(fun)
         self.c = self.f.__cache__()
         self.narch = 0
+        self.by = None
+        if cfg.get('bystander'):
+            c2, _, _ = make_backend(cfg['backend'], tmp, name='by', variant=cfg.get('variant', 0))
+            kw2 = dict(kw, cache=c2, keymap=make_keymap(cfg['keymap']))
+            self.by = C(**kw2)(other)
         # pre-populate (f-consistent entries only)
         good = [x for x in range(cfg['nkeys']) if x not in raising]
         self.hashable = True
@@ -363,6 +378,11 @@ class Runner:
             if kind == 'callbad' and self.cfg['keymap'] == 'string': args = (BadRepr(x),)
             if kind == 'call': args = (self.A(x),)
             key, rawk = self.keyin(args)
+            if self.by is not None and kind == 'call' and x % 3 != 0:
+                st = random.getstate()           # (the bystander's own random evictions must not shift the stream f's wrapper draws from)
+                try: self.by(*args)
+                except Exception: pass
+                finally: random.setstate(st)
             chosen = []
             orig = random.choice
             def mychoice(seq):
@@ -502,7 +522,7 @@ def gen_clone_trace(tier, idx):
     """suite `clone` (C20): a wrapper trace with 1-2 dill round-trips inserted at random points"""
     r = rng('clone', tier, idx)
     cfg = gen_cfg(r, tier, idx)
-    if cfg['backend'] in ('sql', 'bare_sql'):
+    if cfg['backend'] in ('sql', 'bare_sql', 'sqlmem'):
         cfg['backend'] = r.choice(['file', 'dir', 'bare_file', 'bare_dir'])   # sqlite connections cannot be pickled
     cfg['clone'] = True
     cfg['variant'] = r.randrange(12)
